@@ -59,12 +59,12 @@ def run_c01(tier):
         raise vlib.Undecided('negative control (membership check dropped) not detected')
     ck.cov['negative_controls'] = 1
     cases = tlc_cases(res.out)
-    reps = 2 if tier == 'quick' else 20
+    reps = 2 if tier == 'quick' else 150
     jobs = []
     for r in range(reps):
         for c in cases:
             jobs.append({'kind': 'verify', 'case': dict(c, id='v-%d' % len(jobs), seed=seed * 1000003 + len(jobs))})
-    for k in range(4 if tier == 'quick' else 40):
+    for k in range(4 if tier == 'quick' else 300):
         jobs.append({'kind': 'verify-sweep', 'seed': seed * 7919 + k})
     execute(ck, 'C01', jobs)
     for c in cases:
@@ -174,7 +174,7 @@ def run_c04(tier):
         raise vlib.Undecided('BLSAggregation: %s %s' % (res.violated, res.error))
     ck.add_states(res, 'every key sequence of length <= %d over {x1, x2, -x1, x3} with every cut A|B' % c['MaxLen'])
     cases = tlc_cases(res.out)
-    reps = 1 if tier == 'quick' else 3
+    reps = 1 if tier == 'quick' else 4
     jobs = [{'kind': 'aggregation', 'seed': seed * 1000003 + i + r * 7919, 'case': cs} for r in range(reps) for i, cs in enumerate(cases)]
     execute(ck, 'C04', jobs)
     for cs in cases:
@@ -202,10 +202,10 @@ def run_c05(tier):
         raise vlib.Undecided('negative control D4 not detected')
     ck.cov['negative_controls'] = 1
     cases = tlc_cases(res.out)
-    reps = 2 if tier == 'quick' else 12
+    reps = 2 if tier == 'quick' else 60
     jobs = [{'kind': 'serial', 'seed': seed * 1000003 + i + 7919 * r, 'case': cs} for r in range(reps) for i, cs in enumerate(cases)]
     jobs.append({'kind': 'serial-zcash', 'seed': seed, 'case': {}})
-    for k in range(1 if tier == 'quick' else 6):
+    for k in range(1 if tier == 'quick' else 20):
         jobs.append({'kind': 'serial-extra', 'seed': seed * 43 + k, 'case': {}})
     execute(ck, 'C05', jobs)
     # the key of a violation is "<predicate>|<finding id>" when the executor attributes it to a specific known finding
@@ -238,7 +238,7 @@ def run_c16(tier):
     cases = tlc_cases(res.out)
     tagcase = [cs for cs in cases if 'tags' in cs][0]
     ck.cov['tags_checked_by_tlc'] = len(tagcase['tags'])
-    reps = 4 if tier == 'quick' else 40
+    reps = 4 if tier == 'quick' else 200
     jobs = []
     for r in range(reps):
         for i, cs in enumerate(cases):
@@ -277,7 +277,7 @@ def run_c17(tier):
         raise vlib.Undecided('negative control (second membership check dropped) not detected')
     ck.cov['negative_controls'] = 1
     cases = tlc_cases(res.out)
-    reps = 1 if tier == 'quick' else 8
+    reps = 1 if tier == 'quick' else 30
     jobs = [{'kind': 'spock', 'seed': seed * 1000003 + i + 7919 * r, 'case': cs} for r in range(reps) for i, cs in enumerate(cases)]
     execute(ck, 'C17', jobs)
     for cs in cases:
